@@ -22,9 +22,12 @@ implemented), _subquery_exists/_subquery_scalar/_subquery_comparison (IN / ANY /
 
 Planning (optimize + Plan) costs ~12 ms and is independent of the data, so run() plans once per query exactly as
 execute() does (optimize(sql, schema, leave_tables_isolated=True); Plan(...)) and runs PythonExecutor(tables).execute(plan)
-per database.  Every violation found that way is re-run through the real execute() before it is reported, one database per
-query is always cross-checked against execute(), and replay() uses execute() only; a disagreement between the two paths
-is a checker error (raises).
+per database.  Every reported example is re-run through the real execute() (up to NATIVE_TRIES times), the first and last
+database of every work item are always run through execute() as well, and replay() uses execute() only.  The executor
+walks its plan through id()-hashed sets, so the same query on the same data can give different rows in different runs
+(observed: nested set operations); a violation on either path counts, violations whose outcome was seen to differ
+between runs carry "outcome_differed_between_runs": true (not part of the key), and an example that execute() never
+reproduced in NATIVE_TRIES runs gets a key ending in ".unconfirmed-through-execute" (none on the pinned tree).
 
 Exceptions: ExecuteError -> rejected (the contract allows it; data-dependent rejections are listed under
 "observations", not as violations).  Any exception while optimizing/planning -> the query is rejected-at-plan and
@@ -379,17 +382,17 @@ def gen_filter():
         preds.append(("and-true", ("and", p, L(True))))
         preds.append(("or-false", ("or", p, L(False))))
     for tag, p in preds:
-        out.append(("filter", "where-" + tag, sel(tbl("t"), [(TA, "c0"), (TB, "c1")], where=p), 1))
-        out.append(("filter", "project-" + tag, sel(tbl("t"), [(TA, "c0"), (TB, "c1"), (p, "c2")]), 1))
+        out.append(("filter", tag, sel(tbl("t"), [(TA, "c0"), (TB, "c1")], where=p), 1))
+        out.append(("filter", tag, sel(tbl("t"), [(TA, "c0"), (TB, "c1"), (p, "c2")]), 1))
     # non-boolean projections
     for tag, e in [("coalesce", ("coalesce", [TA, TB])), ("coalesce", ("coalesce", [TA, L(None), L(0)])),
                    ("case", ("case", [(("eq", TA, TB), L(1)), (("isnull", TA), L(2))], L(None))),
                    ("case", ("case", [(("lt", TA, TB), TA)], TB)), ("arith", ("add", TA, TB)), ("arith", ("add", TA, L(None)))]:
-        out.append(("filter", "project-" + tag, sel(tbl("t"), [(TA, "c0"), (TB, "c1"), (e, "c2")]), 1))
+        out.append(("filter", tag, sel(tbl("t"), [(TA, "c0"), (TB, "c1"), (e, "c2")]), 1))
     # derived table / CTE-free nesting
     inner = sel(tbl("t"), [(TA, "x"), (("eq", TA, TB), "y")])
-    out.append(("filter", "where-derived-bool", sel(sub(inner, "s"), [(C("s.x"), "c0")], where=C("s.y")), 1))
-    out.append(("filter", "where-derived-bool", sel(sub(inner, "s"), [(C("s.x"), "c0")], where=("not", C("s.y"))), 1))
+    out.append(("filter", "derived-bool-column", sel(sub(inner, "s"), [(C("s.x"), "c0")], where=C("s.y")), 1))
+    out.append(("filter", "derived-bool-column", sel(sub(inner, "s"), [(C("s.x"), "c0")], where=("not", C("s.y"))), 1))
     return out
 
 
@@ -442,7 +445,8 @@ def gen_join():
         fam = "join-" + kind.lower()
         for oi, (tag, on) in enumerate(ons):
             for wi, (wtag, w) in enumerate(wheres):
-                core = w is None or (oi in (0, 6, 15, 19) and wi in (1, 2, 4))  # the quick tier's share of the grid
+                # the quick tier's share of the grid
+                core = (w is None and oi not in (1, 3, 5, 8, 13, 14, 16, 18, 21, 24, 26, 29)) or (oi in (0, 6, 15, 19) and wi in (1, 2, 4))
                 out.append((fam, tag + wtag, sel(join(kind, tbl("t"), tbl("u"), on), ALL4, where=w), 2, core))
         # narrower projections (pushdown_projections) and expressions over padded columns
         for tag, on in ons[:1] + ons[6:7] + ons[15:16]:
@@ -474,27 +478,27 @@ def gen_aggregate():
         tag = fn.lower().replace("_", "-")
         T = tbl("t")
         out += [
-            ("aggregate", tag + "-no-group", sel(T, [(a, "c0")]), 1),
-            ("aggregate", tag + "-no-group+where", sel(T, [(a, "c0")], where=("eq", TA, L(1))), 1),
-            ("aggregate", tag + "-no-group+where", sel(T, [(a, "c0")], where=("isnull", TB)), 1),
-            ("aggregate", tag + "-no-group+where-false", sel(T, [(a, "c0")], where=("gt", TA, L(5))), 1),
-            ("aggregate", tag + "-no-group+having", sel(T, [(a, "c0")], having=("gt", agg("COUNT_STAR"), L(1))), 1),
-            ("aggregate", tag + "-no-group+expression", sel(T, [(("coalesce", [a, L(0)]), "c0"), (("isnull", a), "c1")]), 1),
-            ("aggregate", tag + "-group", sel(T, [(TA, "c0"), (a, "c1")], group=[TA]), 1),
-            ("aggregate", tag + "-group+where", sel(T, [(TA, "c0"), (a, "c1")], where=("isnull", TB), group=[TA]), 1),
-            ("aggregate", tag + "-group-only-aggregate", sel(T, [(a, "c0")], group=[TA]), 1),
-            ("aggregate", tag + "-group-two-keys", sel(T, [(TA, "c0"), (TB, "c1"), (a, "c2")], group=[TA, TB]), 1),
-            ("aggregate", tag + "-having", sel(T, [(TA, "c0")], group=[TA], having=("gt", a, L(1))), 1),
-            ("aggregate", tag + "-having-is-null", sel(T, [(TA, "c0")], group=[TA], having=("isnull", a)), 1),
-            ("aggregate", tag + "-having-not", sel(T, [(TA, "c0"), (a, "c1")], group=[TA], having=("not", ("gt", a, L(1)))), 1),
+            ("aggregate", tag, sel(T, [(a, "c0")]), 1),
+            ("aggregate", tag, sel(T, [(a, "c0")], where=("eq", TA, L(1))), 1),
+            ("aggregate", tag, sel(T, [(a, "c0")], where=("isnull", TB)), 1),
+            ("aggregate", tag, sel(T, [(a, "c0")], where=("gt", TA, L(5))), 1),
+            ("aggregate", tag, sel(T, [(a, "c0")], having=("gt", agg("COUNT_STAR"), L(1))), 1),
+            ("aggregate", tag, sel(T, [(("coalesce", [a, L(0)]), "c0"), (("isnull", a), "c1")]), 1),
+            ("aggregate", tag, sel(T, [(TA, "c0"), (a, "c1")], group=[TA]), 1),
+            ("aggregate", tag, sel(T, [(TA, "c0"), (a, "c1")], where=("isnull", TB), group=[TA]), 1),
+            ("aggregate", tag, sel(T, [(a, "c0")], group=[TA]), 1),
+            ("aggregate", tag, sel(T, [(TA, "c0"), (TB, "c1"), (a, "c2")], group=[TA, TB]), 1),
+            ("aggregate", tag, sel(T, [(TA, "c0")], group=[TA], having=("gt", a, L(1))), 1),
+            ("aggregate", tag, sel(T, [(TA, "c0")], group=[TA], having=("isnull", a)), 1),
+            ("aggregate", tag, sel(T, [(TA, "c0"), (a, "c1")], group=[TA], having=("not", ("gt", a, L(1)))), 1),
             ("aggregate", tag + "-over-left-join",
              sel(join("LEFT", T, tbl("u"), ("eq", TA, UA)), [(TA, "c0"), (agg(fn, None if fn == "COUNT_STAR" else UB), "c1")],
                  group=[TA]), 2),
         ]
         if fn != "COUNT_STAR":
             e = agg(fn, ("add", TA, TB))
-            out.append(("aggregate", tag + "-expression-argument", sel(T, [(e, "c0")]), 1))
-            out.append(("aggregate", tag + "-expression-argument", sel(T, [(TA, "c0"), (agg(fn, ("coalesce", [TB, L(0)])), "c1")], group=[TA]), 1))
+            out.append(("aggregate", tag, sel(T, [(e, "c0")]), 1))
+            out.append(("aggregate", tag, sel(T, [(TA, "c0"), (agg(fn, ("coalesce", [TB, L(0)])), "c1")], group=[TA]), 1))
     T = tbl("t")
     out += [
         ("aggregate", "several-aggregates", sel(T, [(agg("COUNT_STAR"), "c0"), (agg("COUNT", TA), "c1"), (agg("SUM", TB), "c2"), (agg("MIN", TA), "c3")]), 1),
@@ -532,7 +536,7 @@ ORD = [(d, nf) for d in (False, True) for nf in (None, True, False)]
 
 
 def _otag(d, nf):
-    return ("desc" if d else "asc") + ("-default-nulls" if nf is None else "-nulls-first" if nf else "-nulls-last")
+    return "default-null-ordering" if nf is None else "explicit-null-ordering"
 
 
 def gen_order():
@@ -540,7 +544,7 @@ def gen_order():
     T = tbl("t")
     items = [(TA, "c0"), (TB, "c1")]
     for (d0, n0), (d1, n1) in itertools.product(ORD, ORD):
-        out.append(("order", f"two-keys.{_otag(d0, n0)}.{_otag(d1, n1)}" if n0 is None or n1 is None else "two-keys-explicit-nulls",
+        out.append(("order", "two-keys.default-null-ordering" if n0 is None or n1 is None else "two-keys.explicit-null-ordering",
                     sel(T, items, order=[(0, d0, n0), (1, d1, n1)]), 1))
     for d0, n0 in ORD:
         t_ = _otag(d0, n0)
@@ -560,23 +564,23 @@ def gen_limit():
     items = [(TA, "c0"), (TB, "c1")]
     for lim, off in [(0, None), (1, None), (2, None), (1, 1), (2, 1), (1, 2), (0, 1), (None, 1), (5, None)]:
         lt = f"limit-{lim}" + ("" if off is None else f"-offset-{off}")
-        out.append(("limit", "ordered." + lt, sel(T, items, order=[(0, False, True), (1, True, False)], limit=lim, offset=off), 1))
-        out.append(("limit", "ordered-desc." + lt, sel(T, items, order=[(0, True, True), (1, False, False)], limit=lim, offset=off), 1))
-        out.append(("limit", "unordered." + lt, sel(T, items, limit=lim, offset=off), 1))
-        out.append(("limit", "unordered-where." + lt, sel(T, items, where=("isnull", TA), limit=lim, offset=off), 1))
-        out.append(("limit", "aggregate-no-group." + lt, sel(T, [(agg("COUNT_STAR"), "c0"), (agg("SUM", TB), "c1")], limit=lim, offset=off), 1))
-        out.append(("limit", "aggregate-group." + lt, sel(T, [(TA, "c0"), (agg("COUNT", TB), "c1")], group=[TA], order=[(0, False, False), (1, False, False)], limit=lim, offset=off), 1))
-        out.append(("limit", "aggregate-group-unordered." + lt, sel(T, [(TA, "c0"), (agg("COUNT", TB), "c1")], group=[TA], limit=lim, offset=off), 1))
-        out.append(("limit", "aggregate-having-unordered." + lt, sel(T, [(TA, "c0")], group=[TA], having=("gt", agg("COUNT_STAR"), L(0)), limit=lim, offset=off), 1))
-        out.append(("limit", "distinct." + lt, sel(T, [(TA, "c0")], distinct=True, order=[(0, True, False)], limit=lim, offset=off), 1))
-        out.append(("limit", "distinct-unordered." + lt, sel(T, [(TA, "c0")], distinct=True, limit=lim, offset=off), 1))
-        out.append(("limit", "derived." + lt, sel(sub(sel(T, items2(), order=[(0, False, True), (1, False, True)], limit=lim, offset=off), "s"), [(agg("COUNT_STAR"), "c0")]), 1))
+        out.append(("limit", "ordered", sel(T, items, order=[(0, False, True), (1, True, False)], limit=lim, offset=off), 1))
+        out.append(("limit", "ordered-desc", sel(T, items, order=[(0, True, True), (1, False, False)], limit=lim, offset=off), 1))
+        out.append(("limit", "unordered", sel(T, items, limit=lim, offset=off), 1))
+        out.append(("limit", "unordered-where", sel(T, items, where=("isnull", TA), limit=lim, offset=off), 1))
+        out.append(("limit", "aggregate-no-group", sel(T, [(agg("COUNT_STAR"), "c0"), (agg("SUM", TB), "c1")], limit=lim, offset=off), 1))
+        out.append(("limit", "aggregate-group", sel(T, [(TA, "c0"), (agg("COUNT", TB), "c1")], group=[TA], order=[(0, False, False), (1, False, False)], limit=lim, offset=off), 1))
+        out.append(("limit", "aggregate-group-unordered", sel(T, [(TA, "c0"), (agg("COUNT", TB), "c1")], group=[TA], limit=lim, offset=off), 1))
+        out.append(("limit", "aggregate-having-unordered", sel(T, [(TA, "c0")], group=[TA], having=("gt", agg("COUNT_STAR"), L(0)), limit=lim, offset=off), 1))
+        out.append(("limit", "distinct", sel(T, [(TA, "c0")], distinct=True, order=[(0, True, False)], limit=lim, offset=off), 1))
+        out.append(("limit", "distinct-unordered", sel(T, [(TA, "c0")], distinct=True, limit=lim, offset=off), 1))
+        out.append(("limit", "derived", sel(sub(sel(T, items2(), order=[(0, False, True), (1, False, True)], limit=lim, offset=off), "s"), [(agg("COUNT_STAR"), "c0")]), 1))
     for lim, off in [(1, None), (1, 1), (0, None), (3, 1)]:
         lt = f"limit-{lim}" + ("" if off is None else f"-offset-{off}")
-        out.append(("limit", "left-join-unordered." + lt, sel(join("LEFT", T, tbl("u"), ("eq", TA, UA)), ALL4, limit=lim, offset=off), 2))
-        out.append(("limit", "left-join-ordered." + lt, sel(join("LEFT", T, tbl("u"), ("lt", TA, UA)), ALL4, order=[(0, False, True), (1, False, True), (2, False, True), (3, False, True)], limit=lim, offset=off), 2))
-        out.append(("limit", "setop-ordered." + lt, setop("UNION", True, sel(T, [(TA, "c0")]), sel(tbl("u"), [(UA, "c0")]), order=[(0, False, False)], limit=lim, offset=off), 2))
-        out.append(("limit", "setop-unordered." + lt, setop("EXCEPT", True, sel(T, [(TA, "c0")]), sel(tbl("u"), [(UA, "c0")]), limit=lim, offset=off), 2))
+        out.append(("limit", "left-join-unordered", sel(join("LEFT", T, tbl("u"), ("eq", TA, UA)), ALL4, limit=lim, offset=off), 2))
+        out.append(("limit", "left-join-ordered", sel(join("LEFT", T, tbl("u"), ("lt", TA, UA)), ALL4, order=[(0, False, True), (1, False, True), (2, False, True), (3, False, True)], limit=lim, offset=off), 2))
+        out.append(("limit", "setop-ordered", setop("UNION", True, sel(T, [(TA, "c0")]), sel(tbl("u"), [(UA, "c0")]), order=[(0, False, False)], limit=lim, offset=off), 2))
+        out.append(("limit", "setop-unordered", setop("EXCEPT", True, sel(T, [(TA, "c0")]), sel(tbl("u"), [(UA, "c0")]), limit=lim, offset=off), 2))
     return out
 
 
@@ -594,13 +598,13 @@ def gen_setop():
             out += [
                 (fam, v + ".two-columns", setop(op, all_, sel(T, [(TA, "c0"), (TB, "c1")]), sel(U, [(UA, "c0"), (UB, "c1")])), 2),
                 (fam, v + ".one-column", setop(op, all_, sel(T, [(TA, "c0")]), sel(U, [(UB, "c0")])), 2),
-                (fam, v + ".same-table", setop(op, all_, sel(T, [(TA, "c0")]), sel(T, [(TB, "c0")])), 1),
+                (fam, "same-table-in-both-branches", setop(op, all_, sel(T, [(TA, "c0")]), sel(T, [(TB, "c0")])), 1),
                 (fam, v + ".filtered-branches", setop(op, all_, sel(T, [(TA, "c0")], where=("isnull", TB)), sel(U, [(UA, "c0")], where=("neq", UB, L(1)))), 2),
                 (fam, v + ".expression-columns", setop(op, all_, sel(T, [(("eq", TA, TB), "c0")]), sel(U, [(("isnull", UA), "c0")])), 2),
                 (fam, v + ".ordered", setop(op, all_, sel(T, [(TA, "c0"), (TB, "c1")]), sel(U, [(UA, "c0"), (UB, "c1")]), order=[(0, True, True), (1, False, False)]), 2),
                 (fam, v + ".derived", sel(sub(setop(op, all_, sel(T, [(TA, "x")]), sel(U, [(UA, "x")])), "s"), [(agg("COUNT_STAR"), "c0"), (agg("COUNT", C("s.x")), "c1")]), 2),
-                (fam, v + ".nested-left", setop(op, all_, setop("UNION", True, sel(T, [(TA, "c0")]), sel(U, [(UA, "c0")])), sel(T, [(TB, "c0")])), 2),
-                (fam, v + ".nested-right", setop(op, all_, sel(T, [(TA, "c0")]), setop("UNION", False, sel(U, [(UA, "c0")]), sel(U, [(UB, "c0")]))), 2),
+                (fam, "nested-operand", setop(op, all_, setop("UNION", True, sel(T, [(TA, "c0")]), sel(U, [(UA, "c0")])), sel(T, [(TB, "c0")])), 2),
+                (fam, "nested-operand", setop(op, all_, sel(T, [(TA, "c0")]), setop("UNION", False, sel(U, [(UA, "c0")]), sel(U, [(UB, "c0")]))), 2),
                 (fam, v + ".aggregate-branches", setop(op, all_, sel(T, [(agg("SUM", TA), "c0")]), sel(U, [(agg("MAX", UB), "c0")])), 2),
             ]
     return out
@@ -644,9 +648,9 @@ def gen_subquery():
         ("all-correlated", ("quant", "le", "ALL", TB, ua_corr)),
     ]
     for tag, p in preds:
-        out.append(("subquery", "where-" + tag, sel(T, [(TA, "c0"), (TB, "c1")], where=p), 2))
-        out.append(("subquery", "project-" + tag, sel(T, [(TA, "c0"), (TB, "c1"), (p, "c2")]), 2))
-        out.append(("subquery", "where-or-" + tag, sel(T, [(TA, "c0"), (TB, "c1")], where=("or", p, ("eq", TB, L(1)))), 2, False))
+        out.append(("subquery", tag, sel(T, [(TA, "c0"), (TB, "c1")], where=p), 2))
+        out.append(("subquery", tag, sel(T, [(TA, "c0"), (TB, "c1"), (p, "c2")]), 2))
+        out.append(("subquery", tag, sel(T, [(TA, "c0"), (TB, "c1")], where=("or", p, ("eq", TB, L(1)))), 2, False))
     scalars = [
         ("scalar-uncorrelated", ("scalar", sel(U, [(agg("MAX", UB), "x")]))),
         ("scalar-uncorrelated-count", ("scalar", sel(U, [(agg("COUNT", UA), "x")]))),
@@ -657,7 +661,7 @@ def gen_subquery():
         ("scalar-correlated-coalesce", ("coalesce", [("scalar", sel(U, [(agg("MAX", UB), "x")], where=("eq", UA, TA))), L(0)])),
     ]
     for tag, e in scalars:
-        out.append(("subquery", "project-" + tag, sel(T, [(TA, "c0"), (TB, "c1"), (e, "c2")]), 2))
+        out.append(("subquery", tag, sel(T, [(TA, "c0"), (TB, "c1"), (e, "c2")]), 2))
     return out
 
 
@@ -745,6 +749,15 @@ def _features(db, ntab):
     return (any(len(x) == 0 for x in used), any(v is None for x in used for r in x for v in r))
 
 
+NATIVE_TRIES = 8
+
+
+def _judge(q, kind, val, db):
+    if kind == "rejected":
+        return None
+    return ("exception:" + val) if kind == "exception" else compare(q, val, db)
+
+
 def work(item):
     tier, qi, lo, hi = item
     entry = _QUERIES[tier][qi]
@@ -752,22 +765,29 @@ def work(item):
     dbs = databases_cached(tier, ntab, entry["core"])[lo:hi]
     st, plan = _plan(qi, tier)
     res = {"qi": qi, "n": 0, "nontrivial": 0, "rejected": Counter(), "plan_rejected": None, "fails": [], "nfail": Counter(),
-           "common": {}, "native_checks": 0}
+           "common": {}, "native_checks": 0, "run_dependent": set()}
     if st != "ok":
         res["plan_rejected"] = plan
         return res
     for k, db in enumerate(dbs):
         kind, val = _outcome(lambda: run_planned(plan, db))
-        if k in (0, len(dbs) - 1):  # cross-check of the plan-once path against the contract's call
+        disc = _judge(q, kind, val, db)
+        if k in (0, len(dbs) - 1):
+            # the contract's own call on the same input.  The executor walks its plan through id()-hashed sets, so two
+            # runs of the same query may differ: a violation on either path counts, and is labelled run-dependent
             nk, nv = _outcome(lambda: run_native(entry["sql"], db))
             res["native_checks"] += 1
-            if (nk, Counter(nv) if nk == "rows" else nv) != (kind, Counter(val) if kind == "rows" else val):
-                raise RuntimeError(f"checker error: plan-once path disagrees with execute() on {entry['sql']!r} {db!r}: {(kind, val)} vs {(nk, nv)}")
+            ndisc = _judge(q, nk, nv, db)
+            if ndisc != disc:
+                for d in (disc, ndisc):
+                    if d is not None:
+                        res["run_dependent"].add(d)
+                if disc is None:
+                    kind, val, disc = nk, nv, ndisc
         if kind == "rejected":
             res["rejected"][val] += 1
             continue
         res["n"] += 1
-        disc = ("exception:" + val) if kind == "exception" else compare(q, val, db)
         if kind == "rows" and (val or any(len(x) for x in db[:ntab])):
             res["nontrivial"] += 1
         if disc is None:
@@ -778,13 +798,16 @@ def work(item):
         c[0] &= empty
         c[1] &= null
         if sum(1 for f in res["fails"] if f[0] == disc) < 2:
-            # every reported example is confirmed through the real entry point first (12 ms each: examples only)
-            nk, nv = _outcome(lambda: run_native(entry["sql"], db))
-            res["native_checks"] += 1
-            ndisc = ("exception:" + nv) if nk == "exception" else (compare(q, nv, db) if nk == "rows" else None)
-            if ndisc != disc:
-                raise RuntimeError(f"checker error: violation {disc} on the plan-once path is {ndisc} through execute(): {entry['sql']!r} {db!r}")
-            res["fails"].append((disc, db, val if kind == "rows" else None))
+            # every reported example is re-run through the real entry point (12 ms a call: examples only)
+            confirmed = False
+            for attempt in range(NATIVE_TRIES):
+                nk, nv = _outcome(lambda: run_native(entry["sql"], db))
+                res["native_checks"] += 1
+                if _judge(q, nk, nv, db) == disc:
+                    confirmed = True
+                    break
+                res["run_dependent"].add(disc)
+            res["fails"].append((disc, db, val if kind == "rows" else None, confirmed))
     return res
 
 
@@ -820,7 +843,8 @@ def run(tier, seed):
     per_q = {}
     for r in results:
         a = per_q.setdefault(r["qi"], {"n": 0, "nontrivial": 0, "rejected": Counter(), "plan_rejected": None, "fails": [],
-                                       "nfail": Counter(), "common": {}, "native_checks": 0})
+                                       "nfail": Counter(), "common": {}, "native_checks": 0, "run_dependent": set()})
+        a["run_dependent"] |= r["run_dependent"]
         a["n"] += r["n"]
         a["nontrivial"] += r["nontrivial"]
         a["rejected"] += r["rejected"]
@@ -833,7 +857,7 @@ def run(tier, seed):
             c[0] &= e
             c[1] &= nl
 
-    violations, counts = {}, Counter()
+    violations, counts, run_dependent_keys = {}, Counter(), {}
     evaluations = nontrivial = native = 0
     fam_evals, plan_rejected, rejected_all, rejected_some = Counter(), {}, {}, {}
     for qi, entry in enumerate(qs):
@@ -851,10 +875,14 @@ def run(tier, seed):
         for disc in sorted(a["nfail"]):
             empty, null = a["common"][disc]
             cond = "empty-input" if empty else "null" if null else "any"
+            fails = sorted((f for f in a["fails"] if f[0] == disc), key=lambda f: (not f[3], len(f[1][0]) + len(f[1][1]), repr(f[1])))
+            rundep = disc in a["run_dependent"]  # not part of the key: whether it is noticed is itself run-dependent
+            if not fails[0][3]:
+                cond += ".unconfirmed-through-execute"
             key = f"c11:{entry['family']}:{disc}:{entry['tag']}.{cond}"
             counts[key] += a["nfail"][disc]
-            fails = sorted((f for f in a["fails"] if f[0] == disc), key=lambda f: (len(f[1][0]) + len(f[1][1]), repr(f[1])))
-            _, db, got = fails[0]
+            _, db, got, _ = fails[0]
+            run_dependent_keys[key] = run_dependent_keys.get(key, False) or rundep
             cand = (len(db[0]) + len(db[1]), len(entry["sql"]), entry["sql"], db, got)
             if key not in violations or cand[:3] < violations[key][:3]:
                 violations[key] = cand
@@ -863,7 +891,8 @@ def run(tier, seed):
         _, _, sql, db, got = violations[key]
         q = next(e["q"] for e in qs if e["sql"] == sql)
         vlist.append({"key": key, "what": f"{sql}  on {_db_json(db)}: executor {got} spec {q_eval(q, db)}",
-                      "input": {"sql": sql, "db": _db_json(db)}, "count": counts[key]})
+                      "input": {"sql": sql, "db": _db_json(db)}, "count": counts[key],
+                      "outcome_differed_between_runs": run_dependent_keys[key]})
     n1, n2 = len(databases_cached(tier, 1)), len(databases_cached(tier, 2))
     return {
         "evaluations": evaluations,
@@ -888,21 +917,23 @@ def run(tier, seed):
 
 
 def replay(entry):
+    """native: sqlglot.executor.execute only; up to NATIVE_TRIES runs because the executor's result can be run-dependent"""
     inp = entry["input"]
     sql = inp["sql"]
-    qs = queries("quick")
-    match = [e for e in qs if e["sql"] == sql]
+    match = [e for e in queries("thorough") if e["sql"] == sql]
     if not match:
         return {"violated": False, "observed": "query is not in the generated space"}
     e = match[0]
     db = (tuple(tuple(r) for r in inp["db"]["t"]), tuple(tuple(r) for r in inp["db"]["u"]))
-    kind, val = _outcome(lambda: run_native(sql, db))
-    if kind == "rejected":
-        return {"violated": False, "observed": f"ExecuteError ({val})"}
-    disc = ("exception:" + val) if kind == "exception" else compare(e["q"], val, db)
-    want = entry["key"].split(":")[2:-1]
-    return {"violated": disc is not None and ":".join(want) == disc,
-            "observed": f"execute() -> {val}; spec -> {q_eval(e['q'], db)}; discrepancy {disc}"}
+    want = ":".join(entry["key"].split(":")[2:-1])
+    seen = []
+    for _ in range(NATIVE_TRIES):
+        kind, val = _outcome(lambda: run_native(sql, db))
+        disc = _judge(e["q"], kind, val, db)
+        seen.append(f"execute() -> {kind} {val}; discrepancy {disc}")
+        if disc == want:
+            return {"violated": True, "observed": f"{seen[-1]}; spec -> {q_eval(e['q'], db)}"}
+    return {"violated": False, "observed": "; ".join(sorted(set(seen))) + f"; spec -> {q_eval(e['q'], db)}"}
 
 
 def selfcheck(tier="quick", stride=7):
